@@ -2,12 +2,13 @@
 import math, os, inspect
 import numpy as np
 from harness import core, gens
-from harness.core import q, qlist, cbool, Case, guarded, ImplError
+from harness.core import q, qlist, cbool, Case, guarded, guarded_pure, ImplError
 
-RULE = ('butter_pass: (order 1-4, band/low/high, cut_off as list/tuple/array, remove_gibbs None/start/end/mid, gibbs_extra 0-2, gibbs_range, record, dt) through '
+RULE = ('butter_pass: (order 1-4, band/low/high, cut_off as list/tuple/array (a quarter of the cases: band-pass with a float64 ndarray), remove_gibbs None/start/end/mid, gibbs_extra 0-2, gibbs_range, record, dt) through '
         'Signal/AccSignal.butter_pass with harness-side wrappers around scipy.signal.butter/filtfilt recording the arguments eqsig passes and what filtfilt returns: '
         'order, btype and chain exactly, Wn and padded record to 1e-12 relative, trimmed output = slice of the recorded filtfilt output exactly, dt and length unchanged; '
-        'malformed cut_off (not a sequence / length != 2) must raise ValueError. Linearity of butter_pass, idempotence and polynomial absorption of remove_poly are evaluated '
+        'every call is made twice with the same cut_off object on fresh copies of the record: record and cut_off array bit-identical afterwards, both results identical; '
+        'malformed cut_off (not a sequence / length != 2) must raise ValueError. Linearity (one cut_off object shared by the three calls) of butter_pass, idempotence and polynomial absorption of remove_poly are evaluated '
         'on implementation outputs (1e-6 / 1e-9 relative). Gain: sinusoids of 2048-4096 samples, frequencies across pass/transition/stop bands, interior samples, '
         '|y_i - |H|^2 x_i| <= 1e-7 amp with tan(pi f dt) values supplied by the harness. remove_poly (Signal method and fns.generic), degrees 0-4, exact rational least squares, 1e-9 relative, '
         'residual orthogonality on the implementation output. add_constant/add_series/add_signal: integer records tolerance 0, float records 1e-12, mismatched length / dt / non-Signal must raise '
@@ -107,6 +108,39 @@ def bp_call(s, cut, kw):
     return r.summary()
 
 
+def bp_run(cls, x, dt, cut, kw):
+    """butter_pass on a fresh signal built from a copy of x: pure in (x, cut) - used through core.guarded_pure, which checks
+    that neither the record nor an ndarray cut_off was modified and that a second call with the SAME cut_off object on a
+    fresh copy of the record gives the identical result"""
+    s = cls(np.array(x), dt)
+    summary = bp_call(s, cut, kw)
+    return summary, np.array(s.values, dtype=float), s.dt
+
+
+def bp_plain(cls, x, dt, cut, kw):
+    s = cls(np.array(x), dt)
+    s.butter_pass(cut, **kw)
+    return np.array(s.values, dtype=float)
+
+
+_PURITY_SEEN = set()
+
+
+def purity_violation(rep, site, payload):
+    """an argument modified by the call / a second call on the same objects that differs: one violation per site is enough"""
+    if str(payload.get('impl_error', '')).startswith(('InputMutated', 'NotRepeatable')):
+        if site in _PURITY_SEEN:
+            rep.extra['suppressed_duplicate_purity_violations'] = rep.extra.get('suppressed_duplicate_purity_violations', 0) + 1
+            return
+        _PURITY_SEEN.add(site)
+    rep.violation(site, payload)
+
+
+def sig_cls(rng):
+    import eqsig
+    return eqsig.AccSignal if rng.random() < 0.3 else eqsig.Signal
+
+
 def bp_settings(rng, exact):
     order = rng.randint(1, 4)
     dt = gens.dyadic_dt(rng, 3, 8) if exact else rng.choice([0.01, 0.005, 0.02, 0.025, 0.008, 0.03, 1.0 / 75, rng.uniform(0.002, 0.05)])
@@ -142,31 +176,33 @@ def bp_kwargs(rng, order, g, extra, grange):
     return kw
 
 
-def bp_case(rep, rng, cases, exact, maxn=300):
+def bp_case(rep, rng, cases, exact, maxn=300, array_band=False):
     order, dt, lo, hi, g, extra = bp_settings(rng, exact)
+    while array_band and (lo is None or hi is None):   # a fixed share of band-pass requests with a float64 ndarray of cut-offs
+        order, dt, lo, hi, g, extra = bp_settings(rng, exact)
     n = gens.small_len(rng, 30, maxn)
     if n > 64 and extra == 2:
         extra = rng.choice([0, 1])
     grange = rng.choice([50, 50, 1, 2, 8, 64, 7, n, n + 5, 1000])
     x = gens.int_record(rng, n, amp=20)[0] if exact else gens.float_record(rng, n)[0]
-    cont = rng.randrange(3)
+    cont = 2 if array_band else rng.randrange(3)
     cut = container(cont, lo, hi)
     kw = bp_kwargs(rng, order, g, extra, grange)
-    s = mk_signal(rng, np.array(x), dt)
     site = 'butter_pass[%s]' % ('pad' if g else 'nopad')
     args = {'values': list(map(float, x)), 'dt': dt, 'cut_off': [lo, hi], 'container': ['list', 'tuple', 'array'][cont], 'kwargs': kw}
-    r = guarded(bp_call, s, cut, kw)
+    # purity in the arguments: record and cut_off (ndarray) unchanged; the same cut_off object on a fresh copy of the record again
+    r = guarded_pure(bp_run, sig_cls(rng), np.array(x, dtype=float), dt, cut, kw)
     if isinstance(r, ImplError):
-        rep.violation(site, {'function': 'Signal.butter_pass', 'args': args, 'impl_error': str(r)})
+        purity_violation(rep, site, {'function': 'Signal.butter_pass', 'args': args, 'impl_error': str(r),
+                             'call_sequence': 's1 = Signal(values.copy(), dt); s1.butter_pass(cut_off, **kwargs); s2 = Signal(values.copy(), dt); s2.butter_pass(cut_off, **kwargs)  # same cut_off object'})
         return
-    ro, rbt, rwn, chain, rx, ry = r
-    out = np.array(s.values, dtype=float)
+    (ro, rbt, rwn, chain, rx, ry), out, s_dt = r
     coq = ('{| b_order := %d; b_cont := %d; b_cut := [%s; %s]; b_dt := %s; b_g := %d; b_extra := %d; b_range := %d; b_x := %s; b_err := 0; '
            'r_order := %d; r_bt := %d; r_wn := %s; r_chain := %s; r_x := %s; r_y := %s; b_out := %s; b_dt_out := %s; b_rtol := %s |}'
            % (order, cont, qopt(lo), qopt(hi), q(dt), g, extra, grange, qlist(x), ro, rbt, qlist(rwn), cbool(chain), qlist(rx), qlist(ry),
-              qlist(out), q(s.dt), q(1e-12)))
+              qlist(out), q(s_dt), q(1e-12)))
     cases.append(Case(coq, {'function': 'Signal.butter_pass', 'args': args,
-                            'impl': {'butter': [ro, rbt, rwn], 'len_filtfilt_in': len(rx), 'out': out, 'dt': s.dt}},
+                            'impl': {'butter': [ro, rbt, rwn], 'len_filtfilt_in': len(rx), 'out': out, 'dt': s_dt}},
                       site, nontrivial=len(set(x)) > 1, klass='%s/%s/%s' % (site, ['band', 'low', 'high'][0 if (lo is not None and hi is not None) else 1 if lo is None else 2], GIBBS[g])))
 
 
@@ -201,10 +237,12 @@ def bp_linear(rep, rng, cases, maxn=300):
     x, y = gens.float_record(rng, n)[0], gens.float_record(rng, n)[0]
     a, b = rng.uniform(-3, 3), rng.uniform(-3, 3)
     kw = {'filter_order': order, 'remove_gibbs': GIBBS[g], 'gibbs_extra': extra}
-    cut = (lo, hi)
+    # the three records are filtered with the SAME cut_off object (a float64 ndarray for every other band request)
+    as_array = lo is not None and hi is not None and rng.random() < 0.5
+    cut = np.array([lo, hi]) if as_array else (lo, hi)
     outs = []
     site = 'butter_pass[linear]'
-    args = {'x': list(x), 'y': list(y), 'a': a, 'b': b, 'dt': dt, 'cut_off': [lo, hi], 'kwargs': kw}
+    args = {'x': list(x), 'y': list(y), 'a': a, 'b': b, 'dt': dt, 'cut_off': [lo, hi], 'container': 'array (one object shared by the three calls)' if as_array else 'tuple', 'kwargs': kw}
     for v in (x, y, a * x + b * y):
         s = mk_signal(rng, np.array(v), dt)
         r = guarded(s.butter_pass, cut, **kw)
@@ -242,14 +280,14 @@ def bp_gain(rep, rng, cases, order, bt, g, npairs=40):
     t = np.arange(n) * dt
     x = amp * np.sin(2 * np.pi * f * t + ph)
     kw = {'filter_order': order, 'remove_gibbs': GIBBS[g]}
-    s = mk_signal(rng, x.copy(), dt)
     site = 'butter_pass[gain]'
-    args = {'n': n, 'dt': dt, 'f': f, 'amp': amp, 'phase': ph, 'cut_off': [lo, hi], 'kwargs': kw}
-    r = guarded(s.butter_pass, container(rng.randrange(3), lo, hi), **kw)
+    cont = rng.randrange(3)
+    args = {'n': n, 'dt': dt, 'f': f, 'amp': amp, 'phase': ph, 'cut_off': [lo, hi], 'container': ['list', 'tuple', 'array'][cont], 'kwargs': kw}
+    r = guarded_pure(bp_plain, sig_cls(rng), x, dt, container(cont, lo, hi), kw)
     if isinstance(r, ImplError):
-        rep.violation(site, {'function': 'Signal.butter_pass', 'args': args, 'impl_error': str(r)})
+        purity_violation(rep, site, {'function': 'Signal.butter_pass', 'args': args, 'impl_error': str(r)})
         return
-    y = np.array(s.values, dtype=float)
+    y = r
     if len(y) != n:
         rep.violation(site, {'function': 'Signal.butter_pass', 'args': args, 'impl': 'output length %d != %d' % (len(y), n)})
         return
@@ -405,10 +443,11 @@ def ravg_case(rep, rng, cases, w, n, int_dtype=False):
 # ------------------------------------------------------------------ driver
 def run(rep, rng, tier):
     rep.prove('Prop_C17')
+    _PURITY_SEEN.clear()
     quick = tier == 'quick'
     bps, lins, gains, polys, sames, adds, ravgs = [], [], [], [], [], [], []
     for k in range(48 if quick else 600):
-        bp_case(rep, rng, bps, exact=(k % 2 == 0), maxn=160 if quick else 400)
+        bp_case(rep, rng, bps, exact=(k % 2 == 0), maxn=160 if quick else 400, array_band=(k % 8 < 2))
     bp_malformed(rep, rng, bps)
     for k in range(12 if quick else 120):
         bp_linear(rep, rng, lins, maxn=160 if quick else 400)
@@ -452,6 +491,15 @@ def replay_call(rp):
     a, fn = rp.get('args', {}), rp.get('function', '')
     if 'butter_pass' in fn:
         if 'values' in a and isinstance(a.get('cut_off'), list):
+            if str(a.get('container', '')).startswith('array') and None not in a['cut_off']:
+                # the recorded sequence: the same float64 cut_off array for two fresh copies of the record
+                cut = np.array(a['cut_off'], dtype=float)
+                outs = []
+                for _ in range(2):
+                    s = eqsig.Signal(np.array(a['values'], dtype=float), a['dt'])
+                    s.butter_pass(cut, **a.get('kwargs', {}))
+                    outs.append(s.values)
+                return {'first_call': outs[0], 'second_call_same_cut_off_object': outs[1], 'cut_off_after': cut}
             s = eqsig.Signal(np.array(a['values'], dtype=float), a['dt'])
             s.butter_pass(tuple(a['cut_off']), **a.get('kwargs', {}))
             return s.values
